@@ -533,7 +533,8 @@ def mean_grp(xx, groups, num_groups, nodata, yy):
             if pixv == nodata:
                 continue
             if n == 0:
-                avg = pixv
+                # accumulate in float64 whatever the input type (as numba infers)
+                avg = float(pixv)
             else:
                 avg += pixv
             n += 1
